@@ -214,6 +214,22 @@ Definition tmpl_rep_body (c : cfg) (s : lx * bool) : res (lp (lx * bool) (lx * b
   if a then z' <-- tmpl_skip c (fst s) ;; Ok (Cont (z', true)) else Ok (Brk s).
 Definition tmpl_rep (c : cfg) (z : lx) : res (lx * bool) := loop (fuel_of z) (tmpl_rep_body c) (z, false).
 
+(* l.skipTemplate(): if a template begins here, move over it (and l.hasTmpl = true); Some z' = "true" *)
+Definition skip_tmpl (c : cfg) (z : lx) : res (option lx) :=
+  t <-- tmpl_at c z ;; if t then z' <-- tmpl_skip c z ;; Ok (Some z') else Ok None.
+
+(* "if l.skipTemplate() { continue } else <body>" as the first test of a loop: the state s has the cursor cur s; the flag
+   l.hasTmpl is carried along (set by a skipped template, otherwise unchanged) *)
+Definition with_tmpl {S R} (c : cfg) (cur : S -> lx) (setc : S -> lx -> S) (body : S -> res (lp S R))
+    (sh : S * bool) : res (lp (S * bool) (R * bool)) :=
+  let '(s, has) := sh in
+  sk <-- skip_tmpl c (cur s) ;;
+  match sk with
+  | Some z' => Ok (Cont (setc s z', true))
+  | None => x <-- body s ;; Ok (match x with Cont s' => Cont (s', has) | Brk r => Brk (r, has) end)
+  end.
+Definition with_tmpl_lx {R} (c : cfg) (body : lx -> res (lp lx R)) := with_tmpl c (fun z : lx => z) (fun _ z' => z') body.
+
 (* ---- shiftRawText ------------------------------------------------------------------------ *)
 Definition plaintext_body (z : lx) : res (lp lx lx) :=
   c <-- pkr z 0 ;; if eof0 z c then Ok (Brk z) else Ok (Cont (mv z 1)).
@@ -247,10 +263,17 @@ Definition script_comment_body (s : lx * bool) : res (lp (lx * bool) (lx + lx)) 
   else if eof0 z c then Ok (Brk (inr z))
   else Ok (Cont (mv z 1, inscript)).
 
+(* the inner loop with l.skipTemplate() first; state ((z, inscript), hasTmpl) *)
+Definition script_comment_loop_body (c : cfg) := with_tmpl c (fun s : lx * bool => fst s) (fun s z' => (z', snd s)) script_comment_body.
+
 (* state: (z, hasTmpl); result: (z, hasTmpl) at which "return l.r.Shift()" happens *)
 Definition rawtext_body (c : cfg) (raw : Z) (s : lx * bool) : res (lp (lx * bool) (lx * bool)) :=
   let '(z, has) := s in
   c0 <-- pkr z 0 ;;
+  sk <-- skip_tmpl c z ;;
+  match sk with
+  | Some z' => Ok (Cont (z', true))
+  | None =>
   if c0 =? 60 then
     c1 <-- pkr z 1 ;;
     if c1 =? 47 then
@@ -268,17 +291,15 @@ Definition rawtext_body (c : cfg) (raw : Z) (s : lx * bool) : res (lp (lx * bool
                 if c2 =? 45 then c3 <-- pkr z 3 ;; Ok (c3 =? 45) else Ok false
               else Ok false) ;;
       if sc then
-        r <-- loop (fuel_of z) script_comment_body (mv z 4, false) ;;
+        r <-- loop (fuel_of z) (script_comment_loop_body c) (mv z 4, false, has) ;;
         match r with
-        | inl z' => Ok (Cont (z', has))
-        | inr z' => Ok (Brk (z', has))
+        | (inl z', has') => Ok (Cont (z', has'))
+        | (inr z', has') => Ok (Brk (z', has'))
         end
       else Ok (Cont (mv z 1, has))
-  else
-    t <-- tmpl_at c z ;;
-    if t then z' <-- tmpl_skip c z ;; Ok (Cont (z', true))
-    else if eof0 z c0 then Ok (Brk (z, has))
-    else Ok (Cont (mv z 1, has)).
+  else if eof0 z c0 then Ok (Brk (z, has))
+  else Ok (Cont (mv z 1, has))
+  end.
 
 (* returns the view, the cursor and l.hasTmpl *)
 Definition shift_rawtext (c : cfg) (raw : Z) (z : lx) (has : bool) : res (sl * lx * bool) :=
@@ -297,12 +318,13 @@ Definition bogus_body (z : lx) : res (lp lx (lx * Z)) :=
   else if eof0 z c then Ok (Brk (z, 0))
   else Ok (Cont (mv z 1)).
 
-(* returns (token view, text view, cursor) *)
-Definition shift_bogus (z : lx) : res (sl * sl * lx) :=
-  r <-- loop (fuel_of z) bogus_body z ;;
+(* returns (token view, text view, cursor, l.hasTmpl) *)
+Definition shift_bogus (c : cfg) (z : lx) (has : bool) : res (sl * sl * lx * bool) :=
+  rh <-- loop (fuel_of z) (with_tmpl_lx c bogus_body) (z, has) ;;
+  let r := fst rh in
   t <-- lexeme_from (fst r) 2 ;;
   s <-- shiftv (mv (fst r) (snd r)) ;;
-  Ok (fst s, t, snd s).
+  Ok (fst s, t, snd s, snd rh).
 
 (* ---- readMarkup --------------------------------------------------------------------------- *)
 Definition comment_body (z : lx) : res (lp lx (lx * Z)) :=
@@ -324,34 +346,37 @@ Definition doctype_body (z : lx) : res (lp lx (lx * Z)) :=
   if (c =? 62) || eof0 z c then Ok (Brk (z, if c =? 62 then 1 else 0))
   else Ok (Cont (mv z 1)).
 
-(* returns (type, token view, text view, cursor) *)
-Definition read_markup (z : lx) : res (Z * sl * sl * lx) :=
+(* returns (type, token view, text view, cursor, l.hasTmpl) *)
+Definition read_markup (c : cfg) (z : lx) (has : bool) : res (Z * sl * sl * lx * bool) :=
   a <-- at_ z [45; 45] ;;
   if a then
-    r <-- loop (fuel_of z) comment_body (mv z 2) ;;
+    rh <-- loop (fuel_of z) (with_tmpl_lx c comment_body) (mv z 2, has) ;;
+    let r := fst rh in
     t <-- lexeme_from (fst r) 4 ;;
     s <-- shiftv (mv (fst r) (snd r)) ;;
-    Ok (CommentT, fst s, t, snd s)
+    Ok (CommentT, fst s, t, snd s, snd rh)
   else
     a <-- at_ z [91; 67; 68; 65; 84; 65; 91] ;;
     if a then
-      r <-- loop (fuel_of z) cdata_body (mv z 7) ;;
+      rh <-- loop (fuel_of z) (with_tmpl_lx c cdata_body) (mv z 7, has) ;;
+      let r := fst rh in
       t <-- lexeme_from (fst r) 9 ;;
       s <-- shiftv (mv (fst r) (snd r)) ;;
-      Ok (TextT, fst s, t, snd s)
+      Ok (TextT, fst s, t, snd s, snd rh)
     else
       a <-- atci_from z 0 [100; 111; 99; 116; 121; 112; 101] ;;
       if a then
         let z1 := mv z 7 in
-        c <-- pkr z1 0 ;;
-        let z2 := if c =? 32 then mv z1 1 else z1 in
-        r <-- loop (fuel_of z2) doctype_body z2 ;;
+        c0 <-- pkr z1 0 ;;
+        let z2 := if c0 =? 32 then mv z1 1 else z1 in
+        rh <-- loop (fuel_of z2) (with_tmpl_lx c doctype_body) (z2, has) ;;
+        let r := fst rh in
         t <-- lexeme_from (fst r) 9 ;;
         s <-- shiftv (mv (fst r) (snd r)) ;;
-        Ok (DoctypeT, fst s, t, snd s)
+        Ok (DoctypeT, fst s, t, snd s, snd rh)
       else
-        b <-- shift_bogus z ;;
-        Ok (CommentT, fst (fst b), snd (fst b), snd b).
+        b <-- shift_bogus c z has ;;
+        Ok (CommentT, fst (fst (fst b)), snd (fst (fst b)), snd (fst b), snd b).
 
 (* ---- shiftXML ------------------------------------------------------------------------------ *)
 (* first loop: state (z, inTag, quote, skip) with quote = 0 for "none", skip = 0 none / 1 comment / 2 CDATA section /
@@ -395,16 +420,18 @@ Definition xml_close_body (z : lx) : res (lp lx (lx + lx)) :=
   else if c =? 0 then Ok (Brk (inr z))
   else Ok (Cont (mv z 1)).
 
-(* returns (data view, cursor, l.err after) *)
-Definition shift_xml (raw : Z) (z : lx) (err : bool) : res (sl * lx * bool) :=
-  r <-- loop (fuel_of z) (xml_body raw) (z, true, 0, 0) ;;
-  match r with
-  | inr z' => s <-- shiftv z' ;; Ok (fst s, snd s, err || negb (at_end z'))
+(* returns (data view, cursor, l.err after, l.hasTmpl) *)
+Definition xml_cur (s : lx * bool * Z * Z) : lx := fst (fst (fst s)).
+Definition xml_setc (s : lx * bool * Z * Z) (z' : lx) : lx * bool * Z * Z := (z', snd (fst (fst s)), snd (fst s), snd s).
+Definition shift_xml (c : cfg) (raw : Z) (z : lx) (err has : bool) : res (sl * lx * bool * bool) :=
+  rh <-- loop (fuel_of z) (with_tmpl c xml_cur xml_setc (xml_body raw)) (z, true, 0, 0, has) ;;
+  match fst rh with
+  | inr z' => s <-- shiftv z' ;; Ok (fst s, snd s, err || negb (at_end z'), snd rh)
   | inl z' =>
-      r2 <-- loop (fuel_of z') xml_close_body z' ;;
-      match r2 with
-      | inr z'' => s <-- shiftv z'' ;; Ok (fst s, snd s, err || negb (at_end z''))
-      | inl z'' => s <-- shiftv z'' ;; Ok (fst s, snd s, err)
+      rh2 <-- loop (fuel_of z') (with_tmpl_lx c xml_close_body) (z', snd rh) ;;
+      match fst rh2 with
+      | inr z'' => s <-- shiftv z'' ;; Ok (fst s, snd s, err || negb (at_end z''), snd rh2)
+      | inl z'' => s <-- shiftv z'' ;; Ok (fst s, snd s, err, snd rh2)
       end
   end.
 
@@ -426,11 +453,11 @@ Definition shift_starttag (c : cfg) (l : lexer) (z : lx) : res (Z * option sl * 
   h <-- to_hash (view_bytes (lbuf z2) t) ;;
   if is_raw_hash h then
     if is_xml_hash h then
-      x <-- shift_xml h z2 (lerr l) ;;
-      let '(d, z3, e) := x in
-      if e then Ok (ErrorT, None, mkL z3 (rawtag l) true e (Some t) (lattr l) (lhas l))
+      x <-- shift_xml c h z2 (lerr l) (lhas l) ;;
+      let '(d, z3, e, has) := x in
+      if e then Ok (ErrorT, None, mkL z3 (rawtag l) true e (Some t) (lattr l) has)
       else Ok (if h =? html_hash_Svg then SvgT else if h =? html_hash_Math then MathT else XmlT,
-               Some d, mkL z3 (rawtag l) false e (Some t) (lattr l) (lhas l))
+               Some d, mkL z3 (rawtag l) false e (Some t) (lattr l) has)
     else
       s <-- shiftv z2 ;;
       Ok (StartTagT, Some (fst s), mkL (snd s) h true (lerr l) (Some t) (lattr l) (lhas l))
@@ -492,7 +519,7 @@ Definition shift_attribute (c : cfg) (l : lexer) (z : lx) : res (sl * lexer) :=
                    else if (c1 =? 34) || (c1 =? 39) then
                      loop (fuel_of z3) (attrq_body c c1) (mv z3 1, name_has)
                    else
-                     z4 <-- loop (fuel_of z3) attru_body z3 ;; Ok (z4, name_has)) ;;
+                     loop (fuel_of z3) (with_tmpl_lx c attru_body) (z3, name_has)) ;;
             v <-- lexeme_from (fst r) attr_pos ;;
             Ok (fst r, snd r, Some v)
           else Ok (rewind z2 name_end, name_has, None)) ;;
@@ -526,15 +553,16 @@ Fixpoint name_run (bs : list Z) : Z :=
   end.
 
 (* returns (token view, text view, cursor with the tag name lower-cased: parse.ToLower(data[2:n])) *)
-Definition shift_endtag (z : lx) : res (sl * sl * lx) :=
-  r <-- loop (fuel_of z) endtag_body z ;;
+Definition shift_endtag (c : cfg) (z : lx) (has : bool) : res (sl * sl * lx * bool) :=
+  rh <-- loop (fuel_of z) (with_tmpl_lx c endtag_body) (z, has) ;;
+  let r := fst rh in
   t <-- lexeme_from (fst r) 2 ;;
   let e := trim_end_len (view_bytes (lbuf z) t) in
   s <-- shiftv (mv (fst r) (snd r)) ;;
   let data := fst s in
   if 2 <=? sn data then                                  (* data[2:n] with len(data) < 2 would panic *)
     let n := name_run (skipz 2 (view_bytes (lbuf z) data)) in
-    Ok (data, mkSl (so t) e, lx_lower (snd s) (mkSl (so data + 2) n))
+    Ok (data, mkSl (so t) e, lx_lower (snd s) (mkSl (so data + 2) n), snd rh)
   else Panic.
 
 (* ---- Next ------------------------------------------------------------------------------------ *)
@@ -575,23 +603,23 @@ Definition next_content (c : cfg) (l : lexer) : res (Z * option sl * lexer) :=
       let z1 := mv z 2 in
       c0 <-- pkr z1 0 ;;
       if negb (is_letter c0) then
-        b <-- shift_bogus z1 ;;
-        Ok (CommentT, Some (fst (fst b)),
-            mkL (snd b) (rawtag l) (intag l) (lerr l) (Some (snd (fst b))) (lattr l) (lhas l))
+        b <-- shift_bogus c z1 (lhas l) ;;
+        Ok (CommentT, Some (fst (fst (fst b))),
+            mkL (snd (fst b)) (rawtag l) (intag l) (lerr l) (Some (snd (fst (fst b)))) (lattr l) (snd b))
       else
-        b <-- shift_endtag z1 ;;
-        Ok (EndTagT, Some (fst (fst b)),
-            mkL (snd b) (rawtag l) (intag l) (lerr l) (Some (snd (fst b))) (lattr l) (lhas l))
+        b <-- shift_endtag c z1 (lhas l) ;;
+        Ok (EndTagT, Some (fst (fst (fst b))),
+            mkL (snd (fst b)) (rawtag l) (intag l) (lerr l) (Some (snd (fst (fst b)))) (lattr l) (snd b))
   | DStartTag =>
       shift_starttag c (mkL (lz l) (rawtag l) true (lerr l) (ltext l) (lattr l) (lhas l)) (mv z 1)
   | DMarkup =>
-      m <-- read_markup (mv z 2) ;;
-      let '(ty, tk, tx, z') := m in
-      Ok (ty, Some tk, mkL z' (rawtag l) (intag l) (lerr l) (Some tx) (lattr l) (lhas l))
+      m <-- read_markup c (mv z 2) (lhas l) ;;
+      let '(ty, tk, tx, z', has) := m in
+      Ok (ty, Some tk, mkL z' (rawtag l) (intag l) (lerr l) (Some tx) (lattr l) has)
   | DBogusQ =>
-      b <-- shift_bogus (mv z 1) ;;
-      Ok (CommentT, Some (fst (fst b)),
-          mkL (snd b) (rawtag l) (intag l) (lerr l) (Some (snd (fst b))) (lattr l) (lhas l))
+      b <-- shift_bogus c (mv z 1) (lhas l) ;;
+      Ok (CommentT, Some (fst (fst (fst b))),
+          mkL (snd (fst b)) (rawtag l) (intag l) (lerr l) (Some (snd (fst (fst b)))) (lattr l) (snd b))
   | DEof => Ok (ErrorT, None, mkL z (rawtag l) (intag l) (lerr l) (ltext l) (lattr l) (lhas l))
   end.
 
